@@ -152,10 +152,13 @@ func (s *V2Session) buildAndSend(ctx context.Context, c ipmi.Command) error {
 			Sequence: 0xFF, // do not send us an ACK
 			Class:    layers.RMCPClassIPMI,
 		}
+		// the sequence number is only consumed once there is a packet to send
+		sequence := s.AuthenticatedSequenceNumbers.Inbound + 1
 		s.v2SessionLayer = ipmi.V2Session{
 			Encrypted:                true,
 			Authenticated:            true,
 			ID:                       s.RemoteID,
+			Sequence:                 sequence,
 			PayloadDescriptor:        ipmi.PayloadDescriptorIPMI,
 			IntegrityAlgorithm:       s.integrityAlgorithm,
 			ConfidentialityLayerType: s.confidentialityLayer.LayerType(),
@@ -170,8 +173,6 @@ func (s *V2Session) buildAndSend(ctx context.Context, c ipmi.Command) error {
 
 		// TODO handle AuthenticationAlgorithmNone properly
 		// TODO handle ConfidentialityAlgorithmNone properly
-		s.AuthenticatedSequenceNumbers.Inbound++
-		s.v2SessionLayer.Sequence = s.AuthenticatedSequenceNumbers.Inbound
 		if err := gopacket.SerializeLayers(s.buffer, serializeOptions,
 			&s.rmcpLayer,
 			// session selector only used when decoding
@@ -183,6 +184,7 @@ func (s *V2Session) buildAndSend(ctx context.Context, c ipmi.Command) error {
 			terminalErr = err
 			return nil
 		}
+		s.AuthenticatedSequenceNumbers.Inbound = sequence
 		requestCtx, cancel := context.WithTimeout(ctx, s.timeout)
 		response, err := s.transport.Send(requestCtx, s.buffer.Bytes())
 		cancel()
